@@ -8,8 +8,8 @@ CLAIMS = {
         "technique": "abstract interpretation of the AST with trace partitioning over an order-type domain + regex-parser oracle",
     },
     "C02": {
-        "text": "Decides the structural core of automatic grouping for all operand categories: the grouping accessors are evaluated per type tag against the minimum that regex precedence requires (R-TABLE); every non-quantifier builder (15 methods + Conditional) is walked by the abstract interpreter for every receiver type x argument type and its emitted text must parse, with CPython's parser, to the tree of the fully parenthesised composition (R-HOLE); every class/operator spelling must emit what the method emits (R-DELEG).",
-        "note": "Necessary condition only: whether Pregex.__infer_type assigns the right type tag to arbitrary run-time text is not decided. Witnesses per syntactic category are representative because a syntactic scan shows builders look at operand text only via emission, prefix tests and constant rewrites. Trusts ast, re._parser, /verif/sa.",
+        "text": "Decides the structural core of automatic grouping for all operand categories: the grouping accessors are evaluated per type tag against the minimum that regex precedence requires (R-TABLE); every non-quantifier builder (15 methods + Conditional) is walked by the abstract interpreter for every receiver type x argument type and its emitted text must parse, with CPython's parser, to the tree of the fully parenthesised composition (R-HOLE); every class/operator spelling must emit what the method emits (R-DELEG); depth-2 compositions over adversarial leaves with Pregex.__infer_type interpreted (no type oracle) must keep every operand intact (R-COMPOSE: emitter/classifier agreement on a generated family).",
+        "note": "Whether Pregex.__infer_type assigns the right type tag to ARBITRARY run-time text is not decided; R-COMPOSE decides it on the generated family (about 1600 depth-1 expressions x 12 contexts), so coverage there is not exhaustive. Witnesses per syntactic category are representative because a syntactic scan shows builders look at operand text only via emission, prefix tests and constant rewrites. Trusts ast, re._parser, /verif/sa.",
         "technique": "abstract interpretation of builder ASTs over type-tag x witness domain + syntax-tree equality with the parenthesised reference",
     },
     "C05": {
@@ -18,7 +18,7 @@ CLAIMS = {
         "technique": "abstract interpretation of builder ASTs with the Empty operand in each position",
     },
     "C09": {
-        "text": "R-REPEAT: raise-iff-can-repeat for all 16 quantifier entry points x bounds x receiver kinds (projection of C04's outcome table). R-FLAGSRC: who-may-write rule for the repeatable flag and return-shape rule of __infer_type. R-RECOG: every assertion emitter's template (walked on operand witnesses) is accepted by the matching recogniser constant and rejected by the other.",
+        "text": "R-REPEAT: raise-iff-can-repeat for all 16 quantifier entry points x bounds x receiver kinds (projection of C04's outcome table). R-FLAGSRC: who-may-write rule for the repeatable flag and return-shape rule of __infer_type. R-RECOG: every assertion emitter's template (walked on operand witnesses) is accepted by the matching recogniser constant and rejected by the other. R-REPEAT-LIT: with the classifier interpreted, repetition is refused exactly for direct anchors / positive look-arounds over the generated family of C02 R-COMPOSE.",
         "note": "Not decided: false positives/negatives of the recognisers on arbitrary run-time text (e.g. literals ending in '$'), bare anchors from the empty pattern. Trusts ast, re._parser, re, /verif/sa.",
         "technique": "abstract interpretation (outcome table) + ownership rule on a field + writer/reader agreement of templates and regex constants",
     },
@@ -73,13 +73,13 @@ CLAIMS = {
         "technique": "finite-language enumeration of the constructors' denotation + table exhaustiveness (every format token has a handler)",
     },
     "C06": {
-        "text": "Constants: the 27 constant classes and 20 tokens are folded from the AST and turned into interval sets over all of Unicode by CPython's regex parser - twin agreement, polarity, documented denotation. Computed constructors: the text AnyFrom/AnyButFrom/AnyBetween/AnyButBetween hand to the class pipeline is obtained by abstract interpretation for every ASCII character (as member, as range start, as range end), all pairs of syntax characters, representatives beyond ASCII and all 20 token instances; it must denote the requested set for re AND be read back unchanged by the pipeline's own reader (interpreted); writer/reader escape tables are compared as sets; twins; argument validation.",
-        "note": "Not decided: the run-time pipeline after the reader (__chars_to_ranges merging, shorthand substitution, one-character collapse) - data-dependent loops over run-time sets. Trusts ast, re._parser, /verif/sa, spec/class_sets.py (our reading of the documentation).",
+        "text": "Constants: the 27 constant classes and 20 tokens are folded from the AST and turned into interval sets over all of Unicode by CPython's regex parser - twin agreement, polarity, documented denotation. Computed constructors: the text AnyFrom/AnyButFrom/AnyBetween/AnyButBetween hand to the class pipeline is obtained by abstract interpretation for every ASCII character (as member, as range start, as range end), all pairs of syntax characters, representatives beyond ASCII and all 20 token instances; it must denote the requested set for re AND be read back unchanged by the pipeline's own reader (interpreted); writer/reader escape tables are compared as sets; twins; argument validation; R-PIPELINE: the constructors interpreted through the whole class pipeline for all arrangements of 2-3 escape-table members under source/reversed/pseudo-random set orders - emitted pattern and verbose text denote the requested set.",
+        "note": "The pipeline's data-dependent loops are explored on the generated member families and set orders (not proved for arbitrary member lists or all hash seeds). Trusts ast, re._parser, /verif/sa, spec/class_sets.py (our reading of the documentation).",
         "technique": "regex-constant ASTs as interval sets + writer/reader table agreement + abstract interpretation of the constructors against the interpreted reader",
     },
     "C07": {
-        "text": "`|`, `-`, `~` are walked by the abstract interpreter - including the nested interval worklists - on EVERY pair of classes over a small contiguous alphabet (all subsets, every spelling of two-member runs, both polarities, an alphabet of ordinary letters and one of escape-table characters), under several iteration orders of the interpreted sets; the text handed to the class pipeline must denote exactly the union / difference, `-` raises EmptyClassException iff nothing is left, `~` only toggles the marker (adversarial bodies), plus a 33-row dispatch/exception table (polarity mix, singletons, Any, global word classes).",
-        "note": "Complete for operands whose members fit the alphabet (5 letters quick, 6 thorough: every order type of up to ~3 intervals per operand); the loops are not proved for arbitrarily many intervals. __process after the constructor and true hash-seed independence are not decided (4 deterministic set orders are swept). Trusts ast, re._parser, /verif/sa.",
+        "text": "`|`, `-`, `~` are walked by the abstract interpreter - including the nested interval worklists - on EVERY pair of classes over a small contiguous alphabet (all subsets, every spelling of two-member runs, both polarities, an alphabet of ordinary letters and one of escape-table characters), under several iteration orders of the interpreted sets; the text handed to the class pipeline, the emitted pattern and the stored verbose text must denote exactly the union / difference, `-` raises EmptyClassException iff nothing is left, `~` only toggles the marker (adversarial bodies), plus a 33-row dispatch/exception table (polarity mix, singletons, Any, global word classes).",
+        "note": "Complete for operands whose members fit the alphabet (5 letters quick, 6 thorough: every order type of up to ~3 intervals per operand); the loops are not proved for arbitrarily many intervals. True hash-seed independence is not decided (2 set orders quick, 8 thorough, incl. pseudo-random permutations). Trusts ast, re._parser, /verif/sa.",
         "technique": "abstract interpretation of the class-algebra functions, exhaustive over a small abstract alphabet, compared with set algebra via the regex parser",
     },
     "C08": {
